@@ -32,7 +32,7 @@ StepT ==
       isCon == st.op \in {"con0", "con1", "con2", "con3"}
       e == IF act2 THEN FirstBad(st.env, Base0 \cup adds2) ELSE 0
       off == IF act2 THEN 0 ELSE FirstBad(st.env, {GlobalSeq[j] : j \in DOMAIN GlobalSeq})   \* deactivated: nothing is refused
-      p == FirstBad(st.plain, Base0)
+      p == IF st.plain_ran THEN FirstBad(st.plain, Base0) ELSE 0
       c == IF isCon THEN FirstBad(st.inst, Base0 \cup AddOf(st.op)) ELSE 0
       why == IF ~st.base_same THEN "the built-in allowlist was altered"
              ELSE IF off # 0 THEN "no environment is active but " \o GlobalSeq[off] \o " is " \o st.env[off] \o " through the pickle module"
